@@ -248,6 +248,8 @@ def run_plan(plan: dict) -> dict:
     target = ids[plan["target"] % len(ids)]
     where = f"kind={kind} algo={algo} relation={rel} n={len(ids)} target={target}"
     C[f"relation.{rel}"] += 1
+    C[{"peer_change": "fault.other_individuals_observations_replaced", "alone": "fault.cohort_reduced_to_one_individual", "permutation": "fault.cohort_permuted",
+       "schedule": "fault.seeded_worker_schedule", "loky": "fault.real_pool_with_scheduled_hash_seed"}.get(rel, "fault.other")] += 1
     if plan.get("sharp"):
         C["probe.sharp_likelihood_cohort"] += 1
     C[f"algo.{algo}"] += 1
